@@ -383,6 +383,9 @@ def check_dtype(dtype, value, node):
             raise AbsRaise("OverflowError", node)
 
 
+FALLBACK_RESOLVER = None    # set by engines/resolve.install(project): resolves un-scripted calls to package functions
+
+
 NUMPY_PRINT_THRESHOLD = 1000     # numpy.get_printoptions()['threshold']: larger arrays are summarised with '...'
 NUMPY_EDGE_ITEMS = 3
 
@@ -1032,6 +1035,10 @@ class Evaluator:
                     if hasattr(obj, "abs_callmethod"):
                         args, kw = self._call_args(n)
                         return obj.abs_callmethod(n.func.attr, args, kw, self, n)
+                    if FALLBACK_RESOLVER is not None and self.runtime is None:
+                        found, val = FALLBACK_RESOLVER(self, n, name)
+                        if found:
+                            return val
                     raise Unsupported(f"method {n.func.attr} of {obj!r}", n)
                 args, kw = self._call_args(n)
                 return obj.methods[n.func.attr](self, n, args, kw)
@@ -1232,6 +1239,8 @@ class Evaluator:
                     return {"list": list, "tuple": tuple, "sorted": sorted, "set": set}[name](args[0])
                 raise Unsupported(f"{name} of abstract", n)
             if name == "enumerate":
+                if isinstance(args[0], Mat) and type(args[0]) is Mat:
+                    args[0] = [Vec.view(r, args[0].dtype) for r in args[0].rows]
                 if hasattr(args[0], "abs_iter"):
                     args[0] = list(args[0].abs_iter())
                 if isinstance(args[0], Vec):
@@ -1259,6 +1268,10 @@ class Evaluator:
                 return fv(*args, **kw)
             except (ValueError, TypeError) as exc:
                 raise AbsRaise(type(exc).__name__, n)
+        if FALLBACK_RESOLVER is not None and self.runtime is None:
+            found, val = FALLBACK_RESOLVER(self, n, name)
+            if found:
+                return val
         raise Unsupported(f"call {name or ast.dump(n.func)[:40]}", n)
 
     # ------------------------------------------------------------------ statements
